@@ -85,6 +85,9 @@ func genC17(r *rt.Rand, tier string, idx int) *world.Scenario {
 				// a compaction request naming a revision the node has not reached yet (a too large number, the
 				// header of a response not yet committed): its mark must not cover writes of the future
 				cl.Ops = append(cl.Ops, world.Op{K: "compact", Rev: world.Rev{M: "committed", N: int64(1 + r.Intn(3000))}})
+			} else if r.Chance(0.3) {
+				// ... or an old one (a client that compacts at a revision it read a while ago)
+				cl.Ops = append(cl.Ops, world.Op{K: "compact", Rev: world.Rev{M: "committed", N: -int64(1 + r.Intn(12))}})
 			} else {
 				cl.Ops = append(cl.Ops, world.Op{K: "compact", Rev: world.Rev{M: "zero"}})
 			}
